@@ -95,6 +95,27 @@ CLAIMED = {
             'proved on witnesses); tied to ast_to_dict on random JSON and judged against json.loads type-strictly.',
             'Trusted: Lean kernel, standard axioms, translator g_extractor.py, pyLiteralEval as a transcription of CPython literal '
             'semantics and correctly rounded toDouble (tie only).', 'DESIGN.md §6 C19'),
+    'C12': ('Lean 4 proof over the lexer model (termination within |text|+2 steps; no non-library exception from any '
+            'well-formed lexer state) and totality of the LR driver model; full text->tree correspondence incl. exact error '
+            'messages; exhaustive truncation/corruption judge under a time limit',
+            'lexer_terminates, token_terminates, lexer_no_internal, token_no_internal, backtracked_token_no_internal are proved for '
+            'ALL texts and lexer states (after three crashes of the pinned code were repaired by fix: commits); the composed model '
+            'Model.Parser.parse (lexer + LR + actions + p_error) is tied to parse() by comparing trees and exact exception class + '
+            'message. Not proved: that no `internal` outcome arises in the LR driver / actions (missing goto, shape mismatch) and '
+            'that the LR fuel suffices; both are covered by the tie and by the judge (every truncation and single-character '
+            'corruption of G1 programs, all strings <= 2 and sampled 3-8 over a lexical alphabet, time limit per case).',
+            'Trusted: Lean kernel, standard axioms, translators, hand-transcribed regex matchers (tie S1), ply driver model (tie S2). '
+            'Python recursion limit is outside the model (deeply nested inputs are not generated).', 'DESIGN.md §6 C12'),
+    'C20': ('Lean 4 proof by induction over the shape of every chunk stream the unparser walk can yield (Out), with kernel-decided '
+            'balance facts over the regenerated definitions and rule tables; fragment-stream correspondence for every rule set; '
+            'independent depth judge on the output text',
+            'defs_indent_net_zero / defs_indent_balanced / indent_table_normalisations_balanced are decided over Gen.Defs and '
+            'Gen.Rules regenerated from /repo; level_returns_to_zero holds for ALL trees, indent strings and hooks; '
+            'ends_with_one_newline_partial under two decidable stream hypotheses evaluated on every program of the tie; '
+            'level_is_depth is judged on the implementation output (depth recomputed from the text) while its proof is in progress.',
+            'Trusted: Lean kernel, standard axioms, translators g_defs.py/g_rules.py (rule objects and handler identities, '
+            'required_space as a truth table over all code points), Model/Unparse.lean tied by S3/S4 on all rule sets.',
+            'DESIGN.md §6 C20'),
     'C17': ('Lean 4 kernel decision (decide +kernel) of equality of the three regenerated LALR table sets and lexer rule lists, '
             'lifted to all inputs by a generic theorem about the LR driver model; cross-configuration differential tie',
             'The tables of the three configurations (generated modules / in-memory unoptimised / regenerated by optimize.reoptimize) '
